@@ -301,6 +301,23 @@ def mmd_weight_rule(chk, cid, prog, cfgname):
                 inst = '%s:absorb(%s<-%s)' % (f.name, canon(la.c[1], ids=False), y)
                 zero = [t for t in sts[i + 1:] if t.k == 'Assign' and t.a['op'] == '=' and strip(t.c[0]).k == 'Index' and 'qsize' in canon(strip(t.c[0]).c[0], ids=False)
                         and canon(strip(t.c[0]).c[1], ids=False) == y and const_value(t.c[1]) == 0]
+                x_c = canon(la.c[1], ids=False)
+                link = [t for t in sts[i + 1:] if t.k == 'Assign' and t.a['op'] == '=' and strip(t.c[0]).k == 'Index' and 'dforw' in canon(strip(t.c[0]).c[0], ids=False)
+                        and canon(strip(t.c[0]).c[1], ids=False) == y]
+                n += 1
+                inst2 = '%s:absorb(%s<-%s):link' % (f.name, x_c, y)
+                if not link:
+                    chk.violate(cid, inst2, loc(f, s), f.name, 'the absorbed node %s gets no forward link to its absorber (dforw[%s] = -%s): the final numbering cannot find the group it belongs to' % (y, y, x_c), cfgname=cfgname)
+                else:
+                    rv = strip(link[0].c[1])
+                    tgt = canon(strip(rv.c[0]), ids=False) if rv.k == 'Unary' and rv.a['op'] == '-' else None
+                    if tgt == x_c:
+                        chk.ok(cid, inst2, sample='`%s`' % pretty(link[0]))
+                    else:
+                        chk.violate(cid, inst2, loc(f, link[0]), f.name,
+                                    '`%s`: the weight of %s went to %s, so its forward link must be -%s; slu_mmdnum_ follows these links to the representative whose '
+                                    'position the node shares, and a link to another node numbers it into the wrong group (perm_c repeats or skips a label)' % (pretty(link[0]), y, x_c, x_c),
+                                    cfgname=cfgname)
                 if zero:
                     chk.ok(cid, inst, sample='`%s` then `%s`' % (pretty(s), pretty(zero[0])))
                 else:
@@ -308,6 +325,6 @@ def mmd_weight_rule(chk, cid, prog, cfgname):
                                 '`%s` moves the weight of %s to its absorber, but qsize[%s] is not set to 0 afterwards: the weights no longer sum to the number of '
                                 'columns and the final numbering, which recognises absorbed nodes by a zero weight, labels the node as a root - perm_c repeats a value' % (pretty(s), y, y),
                                 cfgname=cfgname)
-    if n < 2:
-        raise AnalysisBroken('mmd_weight_rule: %d absorptions found in mmd.c, floor 2' % n)
+    if n < 4:
+        raise AnalysisBroken('mmd_weight_rule: %d absorption obligations found in mmd.c, floor 4' % n)
     return n
